@@ -52,8 +52,17 @@ def key_invertible(name, casing):
 
 # ---------------------------------------------------------------- generation
 
+JSON_T = ["enum", "int64", "uint64", "sint64", "fixed64", "sfixed64", "bytes", "double", "float"]
+
+
 def rename_fields(rng, schema, bad_prob=0.02):
     for m in schema:
+        for f in m.fields:
+            # more of the types that have a JSON encoding of their own
+            if f.ty not in ("message", "map") and rng.random() < 0.35:
+                f.ty = rng.choice(JSON_T)
+            elif f.ty == "map" and rng.random() < 0.35:
+                f.mapV = rng.choice(JSON_T)
         pool = list(GOOD_NAMES)
         rng.shuffle(pool)
         used = set()
@@ -389,7 +398,34 @@ def oracle(chk, b, v, casings=CASINGS):
                 p2 = repr(e)
             if p2 != want_pres:
                 record(chk, "presence-differs-after-roundtrip", inp2, "dict=%r before=%r after=%r" % (d, want_pres, p2))
+    if incl_neutral(b.schema):
+        inp = dict(base, casing="camel", form="include-defaults")
+        try:
+            d = build(v, b.classes).to_dict(include_default_values=True)
+            m2 = cls().from_dict(d)
+            if reflexive and not (m2 == m):
+                record(chk, "not-equal-after-roundtrip", inp, "dict=%r result=%r" % (d, m2))
+            elif bytes(m2) != want_bytes:
+                record(chk, "bytes-differ-after-roundtrip", inp, "dict=%r want=%s got=%s" % (d, want_bytes.hex(), bytes(m2).hex()))
+        except Exception as e:
+            record(chk, "from-dict-raises", inp, repr(e))
     return out
+
+
+def incl_neutral(schema):
+    """include_default_values writes every oneof member and every unset sub-message, which changes
+    presence by design; without those kinds (and without the D17 kinds) the round trip must still hold"""
+    for m in schema:
+        if m.ngroups:
+            return False
+        for f in m.fields:
+            if f.ty == "message" and not f.wraps and f.kind.startswith("u"):
+                return False
+            if f.ty == "map" and (f.mapK != "string" or f.mapV in ("bytes", "message")):
+                return False
+            if f.wraps == "bytes" or not key_invertible(f.name, "camel"):
+                return False
+    return True
 
 
 # ---------------------------------------------------------------- correspondence
@@ -456,6 +492,20 @@ def correspond(chk, drv, b, staged):
                     want = "ERR"
                 lines.append("TODICT %s %s %d %s" % (b.sid, cname, incl, tv))
                 expect.append(("to_dict", want))
+        if incl_ok:
+            try:
+                d = build(v, b.classes).to_dict(include_default_values=True)
+                jt = canon_msg(d, b.schema, ci)
+                if "RAW" not in jt:
+                    for form, fn in (("C", lambda: b.classes[ci].from_dict(d)), ("I", lambda: b.classes[ci]().from_dict(d))):
+                        try:
+                            r = fn()
+                        except Exception as e:
+                            r = e
+                        lines.append("FROMDICT %s %d %s %s" % (b.sid, ci, form, jt))
+                        expect.append(("from_dict-incl-" + form, obs_result(r, b.schema, ci)))
+            except Exception:
+                pass
         for cname, fname, m2 in res:
             form = "I" if fname.endswith("instance") else "C"
             path = "T" if fname.startswith("json") else "D"
@@ -522,7 +572,7 @@ def run(chk, drv):
                             "(json_roundtrip_flat_partial) and stated for nested ones through the per-field lemma; see docs/C04-notes.md")
     if drv:
         assert drv.ask1(enums_line()) == "ok"
-    nb = 45 if quick else 700
+    nb = 160 if quick else 1500
     for bi in range(nb):
         b = JBatch(chk.rng, "j%d" % bi, 10)
         W.count_features(chk, b)
